@@ -182,7 +182,7 @@ func (s *asyncShim) UpdateNode(r *si.NodeResponse) error {
 	}
 	return nil
 }
-func (s *asyncShim) Predicates(*si.PredicatesArgs) error             { return nil }
+func (s *asyncShim) Predicates(*si.PredicatesArgs) error { return nil }
 func (s *asyncShim) PreemptionPredicates(a *si.PreemptionPredicatesArgs) *si.PreemptionPredicatesResponse {
 	return &si.PreemptionPredicatesResponse{Success: true, Index: a.StartIndex}
 }
